@@ -527,9 +527,10 @@ func (h *c20) probeZombieSlot2() int {
 	if err != nil || g.AddChannelEdge(ctx, edge) != nil {
 		return 0
 	}
+	psig := h.sign(0, []byte("c20-probe"))
 	for dir, ts := range []int64{2000, 1000} {
 		pol := &models.ChannelEdgePolicy{
-			Version: lnwire.GossipVersion1, SigBytes: h.sign(0, []byte("c20-probe")).ToSignatureBytes(), ChannelID: 4242,
+			Version: lnwire.GossipVersion1, SigBytes: psig.ToSignatureBytes(), ChannelID: 4242,
 			LastUpdate: time.Unix(ts, 0), ChannelFlags: lnwire.ChanUpdateChanFlags(dir),
 			TimeLockDelta: 10, MinHTLC: 1, FeeBaseMSat: 1, FeeProportionalMillionths: 1,
 		}
@@ -698,19 +699,86 @@ func (h *c20) caseZombiePrune(variant int) {
 	})
 }
 
+// horizon reports what ChanUpdatesInHorizon (channel cache in front of the
+// store; what gossip syncers are answered from) says about the policies of scid.
+func (cs *c20Case) horizon(scid uint64, inLoop func()) string {
+	var t0, t1 int64
+	first := true
+	for e, err := range cs.vg.ChanUpdatesInHorizon(context.Background(), graphdb.ChanUpdateRange{
+		StartTime: fn.Some(time.Unix(0, 0)), EndTime: fn.Some(time.Unix(1<<40, 0)),
+	}) {
+		if err != nil {
+			return "err"
+		}
+		if e.Info != nil && e.Info.ChannelID == scid {
+			if e.Policy1 != nil {
+				t0 = e.Policy1.LastUpdate.Unix()
+			}
+			if e.Policy2 != nil {
+				t1 = e.Policy2.LastUpdate.Unix()
+			}
+		}
+		if first && inLoop != nil {
+			first = false
+			inLoop()
+		}
+	}
+	return fmt.Sprintf("%d:%d:%d", scid, t0, t1)
+}
+
+// caseHorizon: an update is applied while a horizon query is being consumed
+// (the consumer of the iterator runs between the store's durable read and its
+// channel-cache insert); afterwards the horizon is queried again.
+func (h *c20) caseHorizon(variant int) {
+	c := h.stdChan(variant)
+	h.runCase(c20CaseOpts{kind: "horizon", hooked: true}, func(cs *c20Case) {
+		cs.goodChain(c)
+		t0 := cs.nowSec() - 6000
+		dir := uint8(variant % 2)
+		mk := func(ts uint32, d uint8, base uint32) *lnwire.ChannelUpdate1 {
+			u := c20DefaultUpd(ts, d)
+			u.base = base
+			s := c.n1
+			if d == 1 {
+				s = c.n2
+			}
+			return h.mkCU(c.scid, u, s)
+		}
+		cs.submit(1, h.mkCA(c))
+		cs.submit(1, mk(t0+100, dir, 1))
+		cs.cool(cs.t, "restart", 0)
+		during := cs.horizon(c.scid.ToUint64(), func() {
+			if variant%2 == 0 {
+				cs.entry("ue", mk(t0+300, dir, 2))
+			} else {
+				cs.submit(2, mk(t0+300, dir, 2))
+			}
+		})
+		after := cs.horizon(c.scid.ToUint64(), nil)
+		h.pf("hz during=%s after=%s => %s", during, after, cs.dumpOpt(false))
+	})
+}
+
 func (h *c20) concCases(thorough bool, seed int64) {
 	readers := []string{"has", "known", "stale"}
 	writers := []string{"ue", "ae", "del", "zmb"}
+	_, isKV := graphdb.NewTestDB(h.t).(*graphdb.KVStore)
 	n := 0
 	for wi, wk := range writers {
 		for ri, rk := range readers {
 			for si, sched := range c20Scheds {
 				n++
 				if !thorough {
-					// quick: every pair with every barrier of the lookup, the
-					// sequential orders and the write barriers sampled by seed
-					lookupBarrier := strings.HasPrefix(sched, "r.") && sched != "r.begin"
-					if !lookupBarrier && (int(seed)+wi+ri+si)%4 != 0 {
+					// quick: every pair overlapped after the lookup's durable read
+					// (kv: also inside it); the sequential orders, the lookup's
+					// begin barrier and the write barriers are sampled by seed
+					// (the sqlite store is slower to set up: sparser sample)
+					always := sched == "r.end" || (isKV && sched == "r.mid")
+					mod := 4
+					if !isKV {
+						mod = 8
+					}
+					if !always && (int(seed)+wi+ri+si)%mod != 0 {
 						continue
 					}
 				}
@@ -722,7 +790,13 @@ func (h *c20) concCases(thorough bool, seed int64) {
 			}
 		}
 	}
+	for v := 0; v < 2; v++ {
+		h.caseHorizon(v + int(seed))
+	}
 	nz := 6
+	if !isKV {
+		nz = 4
+	}
 	if thorough {
 		nz = 24
 	}
